@@ -22,11 +22,11 @@ TRUSTED_BASE = [
 ASSUMPTIONS = ["Python 3.12 / torch 2.14 as installed (the 'supported versions' available in this sandbox)"]
 RULE = "every shipped YAML plus mutated copies (unknown model key, renamed model / engine / dataset / masking name): the verdict (resolves-and-validates or not) of the real loader is compared with the Coq model's; non-trivial = mutated configuration or configuration with additional models; distinct by (file, mutation)"
 
-ENV_FORMS = {
-    "load_model_config_from_name": ["module_path = f\"direct.nn.{model_name.split('.')[0].lower()}.config\"", "model_name += 'Config'", "config_name = model_name.split('.')[-1]"],
-    "load_model_from_name": ["module_path = f\"direct.nn.{'.'.join([_.lower() for _ in model_name.split('.')[:-1]])}\"", "module_name = model_name.split('.')[-1]"],
-    "load_dataset_config": ["dataset_config = str_to_class('direct.data.datasets_config', dataset_name + 'Config')", "return dataset_config"],
-    "setup_engine": ["model_name_short = cfg.model.model_name.split('.')[0]", "engine_name = cfg.model.engine_name if cfg.model.engine_name else cfg.model.model_name.split('.')[-1] + 'Engine'"],
+# how names are resolved: the (module path, class name) handed to str_to_class, as expressions of the function's inputs
+ENV_CALLS = {
+    "load_model_config_from_name": ("str_to_class", ["f\"direct.nn.{model_name.split('.')[0].lower()}.config\"", "(model_name + 'Config').split('.')[-1]"]),
+    "load_model_from_name": ("str_to_class", ["f\"direct.nn.{'.'.join([_.lower() for _ in model_name.split('.')[:-1]])}\"", "model_name.split('.')[-1]"]),
+    "load_dataset_config": ("str_to_class", ["'direct.data.datasets_config'", "dataset_name + 'Config'"]),
 }
 
 
@@ -86,14 +86,32 @@ def scan(ctx):
     # 1. resolution functions have the modelled form
     path = os.path.join(repo, "direct/environment.py")
     tree, _ = pg.parse_file(path)
-    for fn, lines in ENV_FORMS.items():
-        body = [_nq(ast.unparse(s)) for s in pg.strip_doc(pg.find_def(tree, fn, path).body)]
-        for ln in lines:
-            if _nq(ln) not in body:
-                raise Untranslatable("%s: expected statement `%s`" % (fn, ln), None, path)
-    src = open(path).read()
-    if _nq("str_to_class(f'direct.nn.{model_name_short.lower()}.{model_name_short.lower()}_engine', engine_name)") not in _nq(ast.unparse(tree)):
-        raise Untranslatable("setup_engine: engine module path outside subset", None, path)
+    from .. import symex as X
+
+    for fn, (callee, want) in ENV_CALLS.items():
+        hits, stopped = X.watch_calls(tree, path, fn, [callee])
+        got = {tuple(X.show(a) for a in args) + tuple("%s=%s" % (k_, X.show(v)) for k_, v in kw) for _c, args, kw in hits[callee]}
+        exp = tuple(X.show(X.parse_expr(w)) for w in want)
+        if got != {exp}:
+            raise Untranslatable("%s: %s is not called (only) with %s: %s (%s)" % (fn, callee, exp, sorted(got), stopped), None, path)
+    # setup_engine: the engine class is looked up in direct.nn.<first part of the model name, lower case>.<the same>_engine,
+    # under the configured engine name or <last part of the model name>Engine
+    hits, stopped = X.watch_calls(tree, path, "setup_engine", ["str_to_class"])
+    short = "cfg.model.model_name.split('.')[0]"
+    mod = X.show(X.parse_expr("f\"direct.nn.{%s.lower()}.{%s.lower()}_engine\"" % (short, short)))
+    names = {X.show(X.parse_expr("cfg.model.engine_name")), X.show(X.parse_expr("cfg.model.model_name.split('.')[-1] + 'Engine'")), X.show(X.parse_expr("cfg.model.engine_name if cfg.model.engine_name else cfg.model.model_name.split('.')[-1] + 'Engine'"))}
+    seen_names = set()
+    for conds, args, kw in hits["str_to_class"]:
+        if len(args) != 2 or kw or X.show(args[0]) != mod or X.show(args[1]) not in names:
+            raise Untranslatable("setup_engine: engine class looked up outside the modelled form: %s" % [X.show(a) for a in args], None, path)
+        given = [pol for c, pol in conds if X.show(c) == "cfg.model.engine_name"]
+        if X.show(args[1]) == "cfg.model.engine_name" and given != [True]:
+            raise Untranslatable("setup_engine: the configured engine name is used without being set", None, path)
+        if X.show(args[1]).endswith("'Engine')") and not X.show(args[1]).startswith("(cfg.model.engine_name if") and given != [False]:
+            raise Untranslatable("setup_engine: the default engine name is used although one is configured", None, path)
+        seen_names.add(X.show(args[1]))
+    if not hits["str_to_class"]:
+        raise Untranslatable("setup_engine: no engine lookup reached (%s)" % stopped, None, path)
     # 2. registry and dataclasses
     registry, classes = {}, {}
     files = glob.glob(os.path.join(repo, "direct/nn/**/*.py"), recursive=True) + [os.path.join(repo, p) for p in ("direct/data/datasets_config.py", "direct/data/datasets.py", "direct/common/subsample.py", "direct/common/subsample_config.py", "direct/data/transforms.py", "direct/config/defaults.py", "direct/config/__init__.py")]
